@@ -12,6 +12,9 @@ GNames == StrUpTo(NameAlpha, NameLen)
 GFiles == {f \in StrUpTo(FileAlpha, FileLen) : Len(f) >= FileMin}
 GMsgs  == StrUpTo(MsgAlpha, MsgLen)
 GTexts == {<<>>, <<116>>, <<91, 120, 39, 93, 10>>}
+AllOpts == [color : BOOLEAN, verb : 0..2]
+PlainOpts == {NoOpt}
+OptCode(o) == (IF o.color THEN 1 ELSE 0) + 2 * o.verb          \* the options travel in n of the "start" line
 VARIABLES h, done
 gvars == <<vars, h, done>>
 
@@ -21,7 +24,7 @@ More == Len(h) < D
 
 GInit == Init /\ h = <<>> /\ done = FALSE
 GStep == /\ ~done /\ UNCHANGED done
-         /\ \/ \E ri \in BOOLEAN : TestsStarted(ri) /\ Step("start", E0, E0, E0, 0, IF ri THEN "1" ELSE "0")
+         /\ \/ \E ri \in BOOLEAN, o \in Opts : TestsStarted(ri, o) /\ Step("start", E0, E0, E0, OptCode(o), IF ri THEN "1" ELSE "0")
             \/ \E g \in Names : More /\ cnt.g < MaxGroups /\ GroupStarted(g) /\ Step("group", g, E0, E0, 0, "")
             \/ \E n \in Names, f \in Files, l \in LineNos, k \in {"n", "i"} :
                   More /\ cnt.t < MaxTests /\ TestStarted(n, f, l, k) /\ Step("test", n, f, E0, l, k)
